@@ -273,9 +273,9 @@ fn build_collision_game(x: (Col, Pc), s: Sq, s2: Sq, y: (Col, Pc), t: Sq, t2: Sq
     None
 }
 
-/// King + rook against king, White to move: a family small enough to enumerate (about 175,000 valid positions) and connected
+/// King + rook (or queen) against king: families small enough to enumerate (about 175,000 valid positions each) and connected
 /// by legal play, so that two members which agree in half of the library's key can be put into one game.
-fn krk_positions() -> Vec<RefPos> {
+fn krk_positions(piece: Pc, side: Col) -> Vec<RefPos> {
     let mut out = Vec::new();
     for wk in 0..64u8 {
         for wr in 0..64u8 {
@@ -285,8 +285,9 @@ fn krk_positions() -> Vec<RefPos> {
                 }
                 let mut p = RefPos::empty();
                 p.b[wk as usize] = Some((Col::W, Pc::K));
-                p.b[wr as usize] = Some((Col::W, Pc::R));
+                p.b[wr as usize] = Some((Col::W, piece));
                 p.b[bk as usize] = Some((Col::B, Pc::K));
+                p.side = side;
                 if p.is_valid() {
                     out.push(p);
                 }
@@ -298,7 +299,8 @@ fn krk_positions() -> Vec<RefPos> {
 
 fn krk_key(p: &RefPos) -> (u8, u8, u8, bool) {
     let find = |m: Man| (0..64u8).find(|&s| p.b[s as usize] == Some(m)).unwrap_or(64);
-    (find((Col::W, Pc::K)), find((Col::W, Pc::R)), find((Col::B, Pc::K)), p.side == Col::W)
+    let third = (0..64u8).find(|&s| matches!(p.b[s as usize], Some((_, pc)) if pc != Pc::K)).unwrap_or(64);
+    (find((Col::W, Pc::K)), third, find((Col::B, Pc::K)), p.side == Col::W)
 }
 
 /// Shortest sequence of legal non-capturing moves from a to b (breadth first over the reference model's legal moves).
@@ -345,24 +347,40 @@ fn krk_path(a: &RefPos, b: &RefPos) -> Option<Vec<String>> {
 
 /// Games in which two different positions that agree in the low or in the high half of the library's key alternate.
 fn krk_half_key_games(stats: &mut Stats) -> Vec<Value> {
-    let family = krk_positions();
-    let mut keyed: Vec<(u64, usize)> = Vec::with_capacity(family.len());
-    for (i, p) in family.iter().enumerate() {
-        if let Ok(b) = owlchess::Board::try_from(raw_from_ref(p)) {
-            keyed.push((b.zobrist_hash(), i));
-        }
-    }
-    stats.add("king_rook_king_positions_hashed", keyed.len() as u64);
+    // four classes (rook or queen, either side to move); pairs are looked for inside a class, where play connects them
+    let classes: Vec<Vec<RefPos>> = std::thread::scope(|s| {
+        let hs: Vec<_> = [(Pc::R, Col::W), (Pc::R, Col::B), (Pc::Q, Col::W), (Pc::Q, Col::B)].into_iter().map(|(pc, side)| s.spawn(move || krk_positions(pc, side))).collect();
+        hs.into_iter().map(|h| h.join().unwrap()).collect()
+    });
+    let mut family: Vec<RefPos> = Vec::new();
     let mut pairs: Vec<(usize, usize, &'static str)> = Vec::new();
-    for (half, shift) in [("low", 0u32), ("high", 32u32)] {
-        keyed.sort_by_key(|(h, i)| ((h >> shift) as u32, *i));
-        for w in keyed.windows(2) {
-            if (w[0].0 >> shift) as u32 == (w[1].0 >> shift) as u32 && w[0].0 != w[1].0 {
-                pairs.push((w[0].1, w[1].1, half));
+    for class in classes {
+        let base = family.len();
+        let mut keyed: Vec<(u64, usize)> = Vec::with_capacity(class.len());
+        for (i, p) in class.iter().enumerate() {
+            if let Ok(b) = owlchess::Board::try_from(raw_from_ref(p)) {
+                keyed.push((b.zobrist_hash(), base + i));
+            }
+        }
+        family.extend(class);
+        for (half, shift) in [("low", 0u32), ("high", 32u32)] {
+            keyed.sort_by_key(|(h, i)| ((h >> shift) as u32, *i));
+            for w in keyed.windows(2) {
+                if (w[0].0 >> shift) as u32 == (w[1].0 >> shift) as u32 && w[0].0 != w[1].0 {
+                    pairs.push((w[0].1, w[1].1, half));
+                }
             }
         }
     }
-    pairs.truncate(12);
+    stats.add("three_men_positions_hashed", family.len() as u64);
+    stats.add("half_key_pairs_in_the_family_low", pairs.iter().filter(|p| p.2 == "low").count() as u64);
+    stats.add("half_key_pairs_in_the_family_high", pairs.iter().filter(|p| p.2 == "high").count() as u64);
+    // at most eight pairs per half
+    let mut kept: Vec<(usize, usize, &'static str)> = Vec::new();
+    for half in ["low", "high"] {
+        kept.extend(pairs.iter().filter(|p| p.2 == half).take(8).cloned());
+    }
+    let pairs = kept;
     let family = &family;
     let games: Vec<Option<Value>> = std::thread::scope(|s| {
         let hs: Vec<_> = pairs
@@ -428,6 +446,12 @@ fn collision_driver(_ctx: &RunCtx, stats: &mut Stats, rep: &mut Reporter) {
     stats.add("equal_changes_without_a_legal_game", undemonstrated);
     let krk = krk_half_key_games(stats);
     stats.add("games_joining_two_positions_with_equal_half_keys", krk.len() as u64);
+    for g in krk.iter().take(3) {
+        stats.sample(g.clone());
+    }
+    for g in &krk {
+        stats.label(&format!("game_for_equal_{}_halves", g["half"].as_str().unwrap_or("?")));
+    }
     cases.extend(krk);
     for (i, d) in deltas.iter().enumerate() {
         if i % 97 == 0 {
@@ -520,7 +544,7 @@ pub fn property() -> Property {
                After every op chain.calc_outcome() must be in that class with a reason that applies; set_auto_outcome(f) for all three \
                filters stores exactly what passes an independently written filter table. deep_repetition: one position \
                made to occur 70-301 times by a reversible 4-ply cycle and then unwound ply by ply with the outcome checked at every step. \
-               key_collision_search: the key changes of all single non-pawn moves on an empty board (read through RawBoard::zobrist_hash) are sorted; two different moves with the same change would make two different positions of one game share an occurrence counter, so each such pair is turned into a real game (kings placed where the cycle is legal) and judged by the same oracle; two control games always run; in addition all ~175,000 king + rook v king positions are hashed by the library, and up to 12 pairs that agree in the low or the high half of the key are joined into one game by shortest legal paths (breadth-first over the reference model) and played twice round. \
+               key_collision_search: the key changes of all single non-pawn moves on an empty board (read through RawBoard::zobrist_hash) are sorted; two different moves with the same change would make two different positions of one game share an occurrence counter, so each such pair is turned into a real game (kings placed where the cycle is legal) and judged by the same oracle; two control games always run; in addition all ~700,000 positions of king + rook or queen v king (either side to move) are hashed by the library, and up to 16 pairs that agree in the low or the high half of the key are joined into one game by shortest legal paths (breadth-first over the reference model) and played twice round. \
                Outcome::passes / is_force are enumerated over all 22 outcomes x 3 filters. Non-trivial = history reaching a third occurrence with a pop before it or a look-alike \
                position (same squares, different rights/mark); distinct by case.",
         assumptions: &[
